@@ -3,14 +3,65 @@ package vquery
 import (
 	"fmt"
 	"os"
+	"strconv"
 	"strings"
+	"sync"
 
+	"verif/rig"
 	"verif/sqlrig"
 )
 
-func probeMain(args []string) int {
-	dir, _ := os.MkdirTemp("/var/tmp", "verif-probe-")
+// c26CaseMain is the reproduction helper `vquery c26case <seed> <case> [@dump] [sql ...]`: it regenerates case <case>
+// of seed <seed> exactly as the monitor does, loads it into a fresh dolt sql-server and the reference server, and runs
+// each given statement on dolt (kvexec), dolt with kvexec bypassed, and the reference, printing rows and the plan.
+// `@dump` prints the complete SQL script (DDL, rows, tag, edits) of the case for a standalone reproduction.
+func c26CaseMain(args []string) int {
+	if len(args) < 2 {
+		fmt.Println("usage: c26case <seed> <case> [@dump] [sql ...]")
+		return 2
+	}
+	seed, _ := strconv.ParseInt(args[0], 10, 64)
+	i, _ := strconv.Atoi(args[1])
+	dir, _ := os.MkdirTemp("/var/tmp", "verif-c26case-")
 	defer os.RemoveAll(dir)
+	c := &rig.Ctx{Seed: seed}
+	r := c.SubRand("c26", i)
+	db := fmt.Sprintf("c26_%d", i)
+	cat := typeCatalogue()
+	s := genSchema(r, db, typeCatalogue()[i%len(cat)])
+	muts := make([][]string, len(s.Tables))
+	for ti := range s.Tables {
+		muts[ti] = s.mutate(r, ti)
+	}
+	commitAfter := r.Intn(2) == 0
+	rest := args[2:]
+	if len(rest) > 0 && rest[0] == "@dump" {
+		rest = rest[1:]
+		fmt.Printf("create database `%s`; use `%s`;\n", db, db)
+		for _, t := range s.Tables {
+			fmt.Println(t.createSQL(t.Name, true) + ";")
+			fmt.Println(t.createSQL(t.Name+"_u", false) + ";")
+			for _, name := range []string{t.Name, t.Name + "_u"} {
+				for _, ins := range insertSQL(name, t.Old) {
+					fmt.Println(ins + ";")
+				}
+			}
+		}
+		fmt.Println("call dolt_commit('-Am','v1'); call dolt_tag('v1');")
+		for ti, t := range s.Tables {
+			for _, st := range muts[ti] {
+				for _, name := range []string{t.Name, t.Name + "_u"} {
+					fmt.Println(strings.Replace(st, "{T}", name, 1) + ";")
+				}
+			}
+		}
+		if commitAfter {
+			fmt.Println("call dolt_commit('-Am','v2');")
+		}
+	}
+	if len(rest) == 0 {
+		return 0
+	}
 	srv, err := sqlrig.Start(dir + "/data")
 	if err != nil {
 		fmt.Println("start:", err)
@@ -18,73 +69,55 @@ func probeMain(args []string) int {
 	}
 	defer srv.Stop()
 	obs, err := installObserver()
-	fmt.Println("observer:", err)
-	g, err := startGmsRef()
 	if err != nil {
-		fmt.Println("gms:", err)
+		fmt.Println(err)
 		return 1
 	}
-	defer g.stop()
-	d := srv.MustOpen("")
-	r, err := g.open("")
+	ref, err := startGmsRef()
 	if err != nil {
-		fmt.Println("gms open:", err)
+		fmt.Println("reference:", err)
 		return 1
 	}
-	both := func(q string) {
-		for i, x := range []*sqlrig.Session{d, r} {
-			if err := x.Exec(q); err != nil {
-				fmt.Printf("voice %d: %s: %v\n", i, q, err)
-			}
-		}
+	defer ref.stop()
+	var smu sync.Mutex
+	w := &c26worker{cnt: newCounters(), obs: obs, smu: &smu, seen: map[string]bool{}, srv: srv, ref: ref}
+	w.xd, w.xb = srv.MustOpen(""), srv.MustOpen("")
+	w.xg, err = ref.open("")
+	if err != nil {
+		fmt.Println("reference:", err)
+		return 1
 	}
-	both("create database p")
-	both("use p")
-	both("create table a (id int primary key, x int, s varchar(20) collate utf8mb4_0900_ai_ci, d decimal(10,3), f double, dt datetime(6), e enum('a','b','c'), key ix (x), key isx (s, x))")
-	both("create table b (id int primary key, x int, y int, key ix (x))")
-	both("insert into a values (1,1,'a',1.5,1.25,'2020-01-01 00:00:00.5','a'),(2,2,'A',2.5,1e10,'2020-01-02','b'),(3,NULL,'é',NULL,NULL,NULL,NULL),(4,2,'b',-0.001,-0.0,'1000-01-01','c')")
-	both("insert into b values (1,1,1),(2,2,2),(3,2,3),(4,NULL,4)")
-	if len(args) > 0 {
-		for _, q := range args {
-			for i, x := range []*sqlrig.Session{d, r} {
-				rows, err := x.Query(q)
-				if err != nil {
-					fmt.Printf("voice %d: %v\n", i, err)
-					continue
-				}
-				for _, row := range rows.Data {
-					fmt.Printf("voice %d: %q\n", i, row)
-				}
-			}
-			fmt.Println("built:", obs.snapshot())
-		}
-		return 0
+	w.idD = connID(w.xd)
+	obs.bypass(connID(w.xb))
+	if err := w.setup(s, commitAfter, muts); err != nil {
+		fmt.Println("setup:", err)
+		return 1
 	}
-	for _, q := range []string{
-		"select * from a where x between 1 and 2",
-		"select count(*) from a",
-		"select count(x) from a",
-		"select /*+ LOOKUP_JOIN(a,b) */ a.id, b.id from a join b on a.x = b.x",
-		"select /*+ MERGE_JOIN(a,b) */ a.id, b.id from a join b on a.x = b.x",
-		"select /*+ JOIN_ORDER(b,a) LOOKUP_JOIN(b,a) */ a.id, b.id from a join b on a.x = b.x",
-		"select * from a where s = 'A' and x > 1",
-		"select sum(d), min(f), max(dt), sum(f), sum(x) from a",
-	} {
-		for i, x := range []*sqlrig.Session{d, r} {
-			rows, err := x.Query(q)
-			if err != nil {
-				fmt.Printf("voice %d: %s: %v\n", i, q, err)
+	for _, q := range rest {
+		fmt.Println("==", q)
+		for k, x := range []*sqlrig.Session{w.xd, w.xb, w.xg} {
+			name := []string{"dolt", "dolt-rowexec", "reference"}[k]
+			if k == 2 && strings.Contains(q, " as of ") {
 				continue
 			}
-			fmt.Printf("voice %d: %s -> %q\n", i, q, rows.Sorted())
+			rows, err := x.Query(q)
+			if err != nil {
+				fmt.Printf("  %s: ERROR %v\n", name, err)
+				continue
+			}
+			fmt.Printf("  %s: %d rows\n", name, len(rows.Data))
+			for _, row := range rows.Sorted() {
+				fmt.Printf("    %q\n", row)
+			}
 		}
-		rows, err := d.Query("explain plan " + q)
+		if !strings.HasPrefix(strings.ToLower(q), "select") {
+			continue
+		}
+		rows, err := w.xd.Query("explain plan " + q)
 		if err == nil {
-			fmt.Println(strings.Join(rows.Strings(), "\n"))
-		} else {
-			fmt.Println("explain:", err)
+			fmt.Println("  plan:\n    " + strings.Join(rows.Strings(), "\n    "))
 		}
-		fmt.Println("built:", obs.snapshot())
+		fmt.Println("  kvexec iterators built so far:", obs.snapshot())
 	}
 	return 0
 }
